@@ -234,7 +234,36 @@ def reduce_rad(p):
     return p
 
 
+def _rad_args():
+    dep = getattr(CTX, '_dep', {})
+    return dep
+
+
+def resolve_deps():
+    """dependent radicals: sqrt(a_k) with a_k == a_i * a_j for two other radicals is replaced by s_i * s_j (computed once per radical set)"""
+    key = len(CTX.rad)
+    if getattr(CTX, '_depkey', None) == key:
+        return CTX._dep
+    dep = {}
+    syms = list(CTX.rad)
+    for k, (rk, ak) in enumerate(syms):
+        for i, (ri, ai) in enumerate(syms):
+            if rk in dep:
+                break
+            for j, (rj, aj) in enumerate(syms):
+                if i >= j or k in (i, j) or ri in dep or rj in dep:
+                    continue
+                if sp.expand(sp.numer(sp.together(ak - ai * aj))) == 0:
+                    dep[rk] = ri * rj
+                    break
+    CTX._depkey, CTX._dep = key, dep
+    return dep
+
+
 def nf_num(e):
+    dep = resolve_deps()
+    if dep:
+        e = e.subs(dep)
     num, den = sp.fraction(sp.together(e))
     return reduce_rad(sp.expand(num))
 
@@ -523,6 +552,8 @@ class Mx:
                     + g(0, 2) * (g(1, 0) * g(2, 1) - g(1, 1) * g(2, 0)))
         raise Unsupported('determinant of %dx%d' % (s.r, s.c))
 
+    def value(s): return s.scalar()
+
     def scalar(s):
         if (s.r, s.c) != (1, 1):
             raise Unsupported('1x1 expected, got %dx%d' % (s.r, s.c))
@@ -530,6 +561,23 @@ class Mx:
 
     def __repr__(s):
         return 'Mx(%s)' % [[s.g(i, j).v for j in range(s.c)] for i in range(s.r)]
+
+
+def shape_of(tynode):
+    """(rows, cols, is_array) of an Eigen type from clang's type node (qualType / desugaredQualType); dims < 0 are dynamic"""
+    for t in (tynode.get('desugaredQualType', ''), tynode.get('qualType', '')):
+        m = re.search(r'(Matrix|Array)<double, (-?\d+), (-?\d+)', t)
+        if m:
+            return int(m.group(2)), int(m.group(3)), m.group(1) == 'Array'
+        m = re.search(r'\b(Vector|RowVector|Matrix|Array)([234X])d\b', t)
+        if m:
+            n = -1 if m.group(2) == 'X' else int(m.group(2))
+            k = m.group(1)
+            if k == 'Vector': return n, 1, False
+            if k == 'RowVector': return 1, n, False
+            if k == 'Matrix': return n, n, False
+            return n, 1, True
+    return None
 
 
 def _i(x):
@@ -1005,19 +1053,33 @@ class Exec:
             v = list(v)
         if isinstance(v, int) and not isinstance(v, bool) and re.search(r'\b(double|float)\b', ty) and '*' not in ty:
             v = D(v)
-        s.env[name] = v
+        s.env[name] = s.opaque_hook(name, v)
+
+    def opaque_hook(s, name, v):
+        """contract-directed generalisation: a named intermediate is replaced by fresh symbols (value) with its exact tangent kept"""
+        if name in s.cb.get('opaque', ()):
+            if isinstance(v, Mx):
+                out = Mx(v.r, v.c, arr=v.arr)
+                for i in range(v.r):
+                    for j in range(v.c):
+                        out.p(i, j, D(sp.Symbol('%s_%d%d' % (name, i, j), real=True), v.g(i, j).t))
+                return out
+            if isinstance(v, D):
+                return D(sp.Symbol(name + '_o', real=True), v.t)
+        return v
+
+    def lhs_name(s, node):
+        while node is not None and node.get('kind') in TRANSPARENT:
+            node = node['inner'][0]
+        if node is not None and node.get('kind') == 'DeclRefExpr':
+            return node['referencedDecl']['name']
+        return None
 
     def default_value(s, ty):
         t = ty.replace('const ', '').strip()
-        if re.search(r'Vector3d|Matrix<double, 3, 1', t):
-            return Mx(3, 1)
-        if re.search(r'Matrix3d|Matrix<double, 3, 3', t):
-            return Mx(3, 3)
-        m = re.search(r'Matrix<double, (\d+), (\d+)', t)
-        if m:
-            return Mx(int(m.group(1)), int(m.group(2)))
-        if re.search(r'VectorXd|MatrixXd', t):
-            return Mx(0, 0 if 'MatrixXd' in t else 1)
+        sh = shape_of({'qualType': t})
+        if sh is not None and 'vector<' not in t:
+            return Mx(max(sh[0], 0), max(sh[1], 0), arr=sh[2])
         if re.search(r'\b(double|float)\b', t):
             return D(fresh('uninit'))
         if re.search(r'\b(Index|int|long|size_t|unsigned)\b', t):
@@ -1171,6 +1233,9 @@ class Exec:
             cur = l.get()
         except Exception:
             pass
+        nm = s.lhs_name(lnode) if lnode is not None else None
+        if nm is not None:
+            r = s.opaque_hook(nm, r)
         if isinstance(cur, Mx) and isinstance(r, Mx):
             cur.assign(r)
             return
@@ -1263,7 +1328,7 @@ class Exec:
             return s.index(a0, idx)
         if op == 'operator=':
             r = rval(args[1])
-            s.store(args[0], r)
+            s.store(args[0], r, n['inner'][1])
             return args[0]
         if op in ('operator+=', 'operator-=', 'operator*=', 'operator/='):
             cur = rval(args[0])
@@ -1373,7 +1438,7 @@ class Exec:
         args = [rval(s.expr(a)) for a in argn]
         ty = n['type']['qualType']
         if name in ('Zero', 'Ones', 'Identity', 'UnitX', 'UnitY', 'UnitZ', 'Constant'):
-            return s.eigen_static(name, args, ty)
+            return s.eigen_static(name, args, n['type'])
         f = {'sqrt': d_sqrt, 'acos': d_acos, 'pow': d_pow, 'exp': d_exp, 'log': d_log, 'sin': d_sin, 'cos': d_cos}.get(name)
         if f:
             return f(*args)
@@ -1393,25 +1458,20 @@ class Exec:
             return s.call_fn(m, args, s.this)
         raise Unsupported('call of %s at line %s' % (name, src_line(n)))
 
-    def eigen_static(s, name, args, ty):
+    def eigen_static(s, name, args, tynode):
         ints = [_i(a) for a in args]
-        shape = None
-        m = re.search(r'Matrix<double, (-?\d+), (-?\d+)', ty) or re.search(r'Array<double, (-?\d+), (-?\d+)', ty)
-        if m:
-            shape = [int(m.group(1)), int(m.group(2))]
-        if name == 'Constant':
-            raise Unsupported('Eigen Constant')
-        if shape is None:
-            raise Unsupported('static Eigen constructor %s with type %s' % (name, ty))
+        sh = shape_of(tynode)
+        if sh is None or name == 'Constant':
+            raise Unsupported('static Eigen constructor %s with type %s' % (name, tynode.get('qualType')))
+        shape = [sh[0], sh[1]]
         dyn = [i for i, d in enumerate(shape) if d < 0]
-        if len(dyn) != len(ints) and not (len(dyn) == 1 and len(ints) == 1):
-            if dyn and len(ints) != len(dyn):
-                raise Unsupported('%s(%d args) for type %s' % (name, len(ints), ty))
+        if len(dyn) != len(ints):
+            raise Unsupported('%s(%d args) for type %s' % (name, len(ints), tynode.get('qualType')))
         for d, v in zip(dyn, ints):
             shape[d] = v
         r, c = shape
-        if name == 'Zero': return Mx(r, c, arr='Array' in ty)
-        if name == 'Ones': return Mx(r, c, [[D(1) for _ in range(c)] for _ in range(r)], arr='Array' in ty)
+        if name == 'Zero': return Mx(r, c, arr=sh[2])
+        if name == 'Ones': return Mx(r, c, [[D(1) for _ in range(c)] for _ in range(r)], arr=sh[2])
         if name == 'Identity': return Mx(r, c, [[D(1 if i == j else 0) for j in range(c)] for i in range(r)])
         k = 'XYZ'.index(name[-1])
         return Mx.vec([1 if i == k else 0 for i in range(r)])
@@ -1489,13 +1549,18 @@ def free_syms(*exprs):
     return sorted((x for x in out if x not in rads), key=lambda x: x.name)
 
 
-def identity(oid, function, clause, lhs, rhs, seed=0, domain=None, guard=None, npoints=6, bound=None, z3_cross=False):
+def identity(oid, function, clause, lhs, rhs, seed=0, domain=None, guard=None, npoints=6, bound=None, z3_cross=False, concrete=None):
     """obligation lhs == rhs for all reals (under the radical relations). Exact normal form decides; refutation needs a numeric witness."""
     t0 = time.time()
     lhs = D.lift(lhs).v if not isinstance(lhs, sp.Basic) else lhs
     rhs = D.lift(rhs).v if not isinstance(rhs, sp.Basic) else rhs
     diff = lhs - rhs
     zero = nf_zero(diff)
+    if not zero and concrete is not None:
+        # the proof used generalised (opaque) intermediates; a witness must be searched on the un-generalised expressions
+        lhs, rhs = concrete()
+        lhs = D.lift(lhs).v if not isinstance(lhs, sp.Basic) else lhs
+        rhs = D.lift(rhs).v if not isinstance(rhs, sp.Basic) else rhs
     rng = random.Random(seed * 7919 + hash(oid) % 100000)
     syms = free_syms(lhs, rhs)
     # independent numeric evaluation at random points of the domain (cross-check of the normal-form code, and witness search)
